@@ -76,7 +76,64 @@ def test_fake_eio():
         assert trig('connect', 'sid', {}) is False
     # ids are pairwise distinct
     assert len({real.generate_id() for _ in range(50)}) == 50 and len({fake.generate_id() for _ in range(50)}) == 50
-    return 3
+    # a MESSAGE packet behind a CLOSE packet in one polling payload is still handed to the application, after the
+    # disconnect event (what FakeEio.recv_after_close models)
+    import io
+    from engineio import packet as epkt, payload as epay, socket as esock
+    seen = []
+    real2 = engineio.Server(async_mode='threading', async_handlers=False)
+    real2.on('connect', lambda sid, env: None)
+    real2.on('message', lambda sid, data: seen.append(('message', data)))
+    real2.on('disconnect', lambda sid, *a: seen.append(('disconnect',)))
+    sock = esock.Socket(real2, 'S')
+    real2.sockets['S'] = sock
+    body = epay.Payload(packets=[epkt.Packet(epkt.CLOSE), epkt.Packet(epkt.MESSAGE, data='40')]).encode().encode('utf-8')
+    sock.handle_post_request({'CONTENT_LENGTH': str(len(body)), 'wsgi.input': io.BytesIO(body)})
+    assert seen == [('disconnect',), ('message', '40')], seen
+    seen2 = []
+    fake2 = stubs.FakeEio()
+    fake2.on('connect', lambda sid, env: None)
+    fake2.on('message', lambda sid, data: seen2.append(('message', data)))
+    fake2.on('disconnect', lambda sid, *a: seen2.append(('disconnect',)))
+    fake2.open('S')
+    fake2.lose('S')
+    fake2.recv_after_close('S', '40')
+    assert seen2 == seen, (seen2, seen)
+    return 4
+
+
+def test_asyncgen():
+    """an async generator dropped before exhaustion is closed by a later task, on asyncio and on miniloop alike"""
+    def run(A, runner):
+        out = []
+
+        async def gen():
+            try:
+                yield 1
+                yield 2
+            finally:
+                out.append('closed')
+
+        async def main():
+            async for x in gen():
+                out.append(x)
+                break
+            out.append('after the loop')
+            await A.sleep(0)
+            await A.sleep(0)
+            out.append('end')
+        runner(main())
+        return out
+    a = run(asyncio, asyncio.run)
+    loop = miniloop.new_loop(None, 200)
+
+    def mrun(coro):
+        t = loop.create_task(coro)
+        loop.run_until(lambda: t.done_)
+        loop.drain()
+    b = run(miniloop, mrun)
+    assert a == b, (a, b)
+    return len(a)
 
 
 if __name__ == '__main__':
@@ -85,4 +142,5 @@ if __name__ == '__main__':
     print('miniloop vs asyncio: %d trace entries identical' % test_miniloop())
     print('bsx proxies vs str: %d frames identical' % test_bsx())
     print('FakeEio vs engineio.Server: %d contract points identical' % test_fake_eio())
+    print('async generator finalisation, asyncio vs miniloop: %d trace entries identical' % test_asyncgen())
     print('selftest ok')
